@@ -3,7 +3,7 @@
    if it has, the transform reaches them and the step for unreachable translations stays away; if it has not, only that
    step rewrites them. *)
 From Coq Require Import List NArith ZArith Bool String Lia.
-From Verif Require Import lib.Json gen.MigrationTable model.Migrate model.MigrateValid proofs.MigrateProofs proofs.MigrateValidProofs.
+From Verif Require Import lib.Json gen.MigrationTable model.Migrate model.MigrateValid proofs.MigrateProofs proofs.MigrateValidProofs proofs.MigrateFrameProofs.
 Import ListNotations.
 Open Scope N_scope.
 
@@ -85,6 +85,122 @@ Section Once.
     unfold rewrite_orphans. rewrite Hsplit, Hstar. cbn [fold_left]. rewrite Hhas, Hsame, Hu, andb_true_r, Hloc.
     destruct (ohas m o); reflexivity.
   Qed.
+  (* ---- one level down: a path <k>.<m> whose parent member k holds an object (templating.variables) ----------------- *)
+
+  (* the transform along a one-step path, with or without a uuid on the object *)
+  Lemma one_step_transform_loc' : forall m loc o,
+    str_eqb m star = false -> nonempty m = true -> NoDup (map fst o) ->
+    fst (visit tx [m] loc (JObj o))
+    = if nonempty (object_uuid o) && ohas m o then option_map (rewrite_translations tx (object_uuid o) m) loc else loc.
+  Proof.
+    intros m loc o Hstar Hm Hnd. destruct (nonempty (object_uuid o)) eqn:Hu.
+    - cbn [andb]. now apply one_step_transform_loc.
+    - cbn [andb]. rewrite visit_obj.
+      assert (Hl : forall l loc0, fst (map_st (obj_entry tx m [] (JObj o)) loc0 l) = loc0).
+      { induction l as [|[k v] l IHl]; intro loc0; [reflexivity|]. cbn [map_st].
+        unfold obj_entry at 1. rewrite Hstar, orb_false_r. destruct (str_eqb k m).
+        - unfold value_step, txl. rewrite Hu. cbn [andb fst].
+          specialize (IHl loc0). destruct (map_st (obj_entry tx m [] (JObj o)) loc0 l) as [loc2 r]. exact IHl.
+        - specialize (IHl loc0). destruct (map_st (obj_entry tx m [] (JObj o)) loc0 l) as [loc2 r]. exact IHl. }
+      specialize (Hl o loc). destruct (map_st (obj_entry tx m [] (JObj o)) loc o) as [loc' o']. exact Hl.
+  Qed.
+
+  (* the transform along k :: rem through an object with unique keys: what the rest of the path does at member k *)
+  Lemma keyed_step_loc : forall k rem loc o,
+    str_eqb k star = false -> NoDup (map fst o) ->
+    fst (visit tx (k :: rem) loc (JObj o))
+    = match olookup k o with Some v => fst (value_step tx rem (JObj o) (Some k) loc v) | None => loc end.
+  Proof.
+    intros k rem loc o Hstar Hnd. rewrite visit_obj.
+    assert (Hl : forall l loc0, NoDup (map fst l) ->
+               fst (map_st (obj_entry tx k rem (JObj o)) loc0 l)
+               = match olookup k l with Some v => fst (value_step tx rem (JObj o) (Some k) loc0 v) | None => loc0 end).
+    { induction l as [|[k0 v] l IHl]; intros loc0 Hd; [reflexivity|]. cbn [map_st].
+      inversion Hd as [|? ? Hnin Hd']; subst.
+      unfold obj_entry at 1. rewrite Hstar, orb_false_r. cbn [olookup]. rewrite (str_eqb_sym k k0).
+      destruct (str_eqb k0 k) eqn:E.
+      - apply str_eqb_eq in E. subst k0.
+        destruct (value_step tx rem (JObj o) (Some k) loc0 v) as [loc1 v1]. cbn [fst].
+        specialize (IHl loc1 Hd'). destruct (map_st (obj_entry tx k rem (JObj o)) loc1 l) as [loc2 r]. cbn [fst] in *.
+        rewrite IHl. destruct (olookup k l) as [v'|] eqn:El; [|reflexivity].
+        exfalso. apply Hnin. apply olookup_In in El. now apply (in_map fst) in El.
+      - specialize (IHl loc0 Hd'). destruct (map_st (obj_entry tx k rem (JObj o)) loc0 l) as [loc2 r]. cbn [fst] in *. exact IHl. }
+    specialize (Hl o loc Hnd). destruct (map_st (obj_entry tx k rem (JObj o)) loc o) as [loc' o']. exact Hl.
+  Qed.
+
+  Lemma flat_map_keyed : forall {B} (g : json -> list B) k (o : obj),
+    str_eqb k star = false -> NoDup (map fst o) ->
+    flat_map (fun kv : str * json => if str_eqb (fst kv) k || str_eqb k star then g (snd kv) else []) o
+    = match olookup k o with Some v => g v | None => [] end.
+  Proof.
+    intros B g k o Hstar. induction o as [|[k0 v] o IH]; intro Hd; [reflexivity|].
+    inversion Hd as [|? ? Hnin Hd']; subst.
+    change (flat_map (fun kv : str * json => if str_eqb (fst kv) k || str_eqb k star then g (snd kv) else []) ((k0, v) :: o))
+      with ((if str_eqb k0 k || str_eqb k star then g v else [])
+            ++ flat_map (fun kv : str * json => if str_eqb (fst kv) k || str_eqb k star then g (snd kv) else []) o).
+    rewrite (IH Hd'), Hstar, orb_false_r. cbn [olookup]. rewrite (str_eqb_sym k k0).
+    destruct (str_eqb k0 k) eqn:E; [|reflexivity].
+    apply str_eqb_eq in E. subst k0. destruct (olookup k o) as [v'|] eqn:El; [|apply app_nil_r].
+    exfalso. apply Hnin. apply olookup_In in El. now apply (in_map fst) in El.
+  Qed.
+
+  (* jsonpath.Visit along one keyed step of an object with unique keys *)
+  Lemma visit_values_keyed : forall k o,
+    str_eqb k star = false -> NoDup (map fst o) ->
+    visit_values [k] (JObj o) = match olookup k o with Some v => [v] | None => [] end.
+  Proof.
+    intros k o Hstar Hd.
+    change (visit_values [k] (JObj o))
+      with (flat_map (fun kv : str * json => if str_eqb (fst kv) k || str_eqb k star then visit_values [] (snd kv) else []) o).
+    rewrite (flat_map_keyed (visit_values []) k o Hstar Hd). reflexivity.
+  Qed.
+
+  Lemma txr_obj_keys : forall o o', MigrateFrameProofs.txr_obj tx o o' -> map fst o' = map fst o.
+  Proof.
+    induction o as [|[k x] o IH]; intros [|[k' y] o'] H; cbn in H; try contradiction; [reflexivity|].
+    destruct H as [-> [_ H]]. cbn [map fst]. now rewrite (IH o' H).
+  Qed.
+
+  (* Migrate13_3 on a catalogue path <k>.<m> where member k of the action holds an object c (the templating object and
+     its variables): the translations of (uuid of c, m) are rewritten exactly once when c has a uuid -- by the transform
+     when c has m, by the step for unreachable translations when it has not -- and nothing else is *)
+  Lemma translations_rewritten_once_below : forall p parent k m loc o c,
+    steps_of p = Some [k; m] ->
+    split_last_dot (trim_suffix star_suffix (s p)) = Some (parent, m) -> parent <> [] ->
+    parse_path (dollar ++ parent) = Some [k] ->
+    str_eqb k star = false -> str_eqb m star = false -> str_eqb m k_uuid = false -> nonempty m = true ->
+    NoDup (map fst o) -> NoDup (map fst c) -> olookup k o = Some (JObj c) ->
+    fst (rewrite_path tx loc o p)
+    = if nonempty (object_uuid c) then option_map (rewrite_translations tx (object_uuid c) m) loc else loc.
+  Proof.
+    intros p parent k m loc o c Hs Hsplit Hpar Hpp Hk Hstar Huuid Hm Hnd Hndc Hc.
+    unfold rewrite_path, rewrite_templates. fold (steps_of p). rewrite Hs.
+    pose proof (keyed_step_loc k [m] loc o Hk Hnd) as Hloc. rewrite Hc in Hloc. unfold value_step in Hloc.
+    rewrite (one_step_transform_loc' m loc c Hstar Hm Hndc) in Hloc.
+    pose proof (visit_is_object tx [k; m] loc (JObj o)) as Hobj.
+    pose proof (MigrateFrameProofs.visit_txr tx [k; m] loc (JObj o)) as Htxr.
+    destruct (visit tx [k; m] loc (JObj o)) as [loc1 j1] eqn:Ev. cbn [fst snd] in *.
+    destruct j1 as [| | | | |o1]; try discriminate Hobj.
+    assert (Ev' : snd (visit tx [k; m] loc (JObj o)) = JObj o1) by now rewrite Ev.
+    (* member k of the transformed action: an object with the same uuid which has m iff c has *)
+    pose proof (visit_obj_at tx k [m] loc o Hk o1 Ev') as Hat. rewrite Hc in Hat. destruct Hat as [loc0 Hat].
+    unfold value_step in Hat.
+    pose proof (visit_is_object tx [m] loc0 (JObj c)) as Hobj1.
+    destruct (visit tx [m] loc0 (JObj c)) as [loc2 j2] eqn:Ev2. cbn [snd] in *.
+    destruct j2 as [| | | | |c1]; try discriminate Hobj1.
+    assert (Ev2' : snd (visit tx [m] loc0 (JObj c)) = JObj c1) by now rewrite Ev2.
+    assert (Hhas : ohas m c1 = ohas m c).
+    { pose proof (visit_obj_at tx m [] loc0 c Hstar c1 Ev2') as H1. unfold ohas.
+      destruct (olookup m c) as [v|]; [destruct H1 as [l0 ->]; reflexivity | now rewrite H1]. }
+    assert (Hsame : object_uuid c1 = object_uuid c).
+    { unfold object_uuid, get_str. rewrite (visit_obj_other tx m [] loc0 c k_uuid Hstar); [reflexivity| |exact Ev2'].
+      now rewrite str_eqb_sym. }
+    assert (Hnd1 : NoDup (map fst o1)).
+    { apply MigrateFrameProofs.txr_obj_unfold in Htxr. now rewrite (txr_obj_keys o o1 Htxr). }
+    unfold rewrite_orphans. rewrite Hsplit, Hstar. destruct parent as [|pc parent']; [congruence|].
+    rewrite Hpp, (visit_values_keyed k o1 Hk Hnd1), Hat. cbn [fold_left]. rewrite Hhas, Hsame, Hloc.
+    destruct (nonempty (object_uuid c)), (ohas m c); reflexivity.
+  Qed.
 End Once.
 
 (* the hypotheses can be met: the quick replies of a send_msg, path ".quick_replies[*]" of the generated catalogue *)
@@ -93,3 +209,10 @@ Example rewritten_once_applies :
   /\ split_last_dot (trim_suffix star_suffix (s ".quick_replies[*]")) = Some ([], s "quick_replies")
   /\ In ".quick_replies[*]"%string (catalog_paths catalog_actions (s "send_msg")).
 Proof. vm_compute. auto. Qed.
+
+Example rewritten_once_below_applies :
+  steps_of ".templating.variables[*]" = Some [s "templating"; s "variables"]
+  /\ split_last_dot (trim_suffix star_suffix (s ".templating.variables[*]")) = Some (s ".templating", s "variables")
+  /\ parse_path (dollar ++ s ".templating") = Some [s "templating"]
+  /\ In ".templating.variables[*]"%string (catalog_paths catalog_actions (s "send_msg")).
+Proof. repeat split; try (vm_compute; reflexivity). vm_compute. intuition. Qed.
